@@ -149,4 +149,48 @@ impl GhostQueue {
 //@end
 }
 
+
+// =====================================================================================================
+// S3Fifo::evict (C14): which queue the victim is taken from. The three queue scans (intrusive lists, unsafe state) are
+// stand-ins that log the call and return an arbitrary answer; the contract pins the documented rule: the small queue is
+// scanned first exactly when it EXCEEDS its configured share, else the main queue; the small queue is forced last.
+// =====================================================================================================
+pub struct RecT { pub id: int }
+#[derive(PartialEq, Eq, Structural, Clone, Copy)]
+pub enum Scan { Small, Main, SmallForced }
+pub struct S3T {
+    pub small_weight: usize, pub small_weight_capacity: usize,
+    pub scans: Ghost<Seq<Scan>>,
+    pub small_answer: Ghost<Option<RecT>>, pub main_answer: Ghost<Option<RecT>>, pub forced_answer: Ghost<Option<RecT>>,
+}
+impl S3T {
+    #[verifier::external_body]
+    fn evict_small(&mut self) -> (r: Option<RecT>)
+        ensures r == old(self).small_answer@, final(self).scans@ == old(self).scans@.push(Scan::Small),
+            final(self).main_answer == old(self).main_answer, final(self).forced_answer == old(self).forced_answer,
+    { unimplemented!() }
+    #[verifier::external_body]
+    fn evict_main(&mut self) -> (r: Option<RecT>)
+        ensures r == old(self).main_answer@, final(self).scans@ == old(self).scans@.push(Scan::Main),
+            final(self).small_answer == old(self).small_answer, final(self).forced_answer == old(self).forced_answer,
+    { unimplemented!() }
+    #[verifier::external_body]
+    fn evict_small_force(&mut self) -> (r: Option<RecT>)
+        ensures r == old(self).forced_answer@, final(self).scans@ == old(self).scans@.push(Scan::SmallForced),
+    { unimplemented!() }
+//@region foyer-memory/src/eviction/s3fifo.rs :: impl~^impl<K, V, P> S3Fifo<K, V, P>/fn evict name=s3fifo_evict whole=1 rules=let-chain
+//@head
+    fn s3fifo_evict(&mut self) -> (r: Option<RecT>)
+        ensures
+            // small queue over its share: it is scanned first, and its victim (if any) is the victim
+            old(self).small_weight > old(self).small_weight_capacity ==> final(self).scans@.len() > old(self).scans@.len() && final(self).scans@[old(self).scans@.len() as int] == Scan::Small
+                && (old(self).small_answer@ is Some ==> r == old(self).small_answer@ && final(self).scans@ == old(self).scans@.push(Scan::Small)), // @label small_queue_over_its_share_is_evicted_first
+            // small queue within its share (also exactly full): the main queue is scanned first
+            old(self).small_weight <= old(self).small_weight_capacity ==> final(self).scans@.len() > old(self).scans@.len() && final(self).scans@[old(self).scans@.len() as int] == Scan::Main
+                && (old(self).main_answer@ is Some ==> r == old(self).main_answer@ && final(self).scans@ == old(self).scans@.push(Scan::Main)), // @label small_queue_within_its_share_leaves_the_victim_to_the_main_queue
+            // the small queue is forced only after the main queue had nothing
+            forall|i: int| old(self).scans@.len() <= i < final(self).scans@.len() && (#[trigger] final(self).scans@[i]) == Scan::SmallForced ==> i > 0 && final(self).scans@[i - 1] == Scan::Main && old(self).main_answer@ is None, // @label small_queue_is_forced_only_after_the_main_queue_was_empty
+//@end
+}
+
 } // verus!
